@@ -49,7 +49,7 @@ def make_isa(cfg):
 
 def rexpr(rng, t):
     s = X.join(rng, X.render(rng, t, extra_parens=0.05))
-    if s.startswith("'"):
+    if s.startswith("'") and rng.random() < 0.5:
         s = '(' + s + ')'
     return s
 
